@@ -37,6 +37,14 @@ class Refunc:
     pass
 
 
+class Relist:
+    pass
+
+
+class Reinst:
+    pass
+
+
 class Outer:
     class Inner:
         pass
@@ -95,6 +103,14 @@ def uses_rebound(a):
 
 
 def uses_refunc(a):
+    return 1
+
+
+def uses_relist(a):
+    return 1
+
+
+def uses_reinst(a):
     return 1
 
 
@@ -167,6 +183,9 @@ MUTATIONS = {
     "yield-class-removed": ("uses_yld1", lambda s: s.replace("class Yld1:\n    pass\n", "").replace("    yield Yld1()", "    yield 1")),
     "class-name-now-non-type": ("uses_rebound", lambda s: s.replace("class Rebound:\n    pass\n", "Rebound = 5\n")),
     "class-name-now-function": ("uses_refunc", lambda s: s.replace("class Refunc:\n    pass\n", "def Refunc():\n    return 1\n")),
+    # the name is now bound to objects that cannot even be hashed (a registry list / dict, an instance of a class defining __eq__ only)
+    "class-name-now-unhashable-container": ("uses_relist", lambda s: s.replace("class Relist:\n    pass\n", "Relist = []\n")),
+    "class-name-now-unhashable-instance": ("uses_reinst", lambda s: s.replace("class Reinst:\n    pass\n", "class _Eq:\n    def __eq__(self, other):\n        return True\n\n\nReinst = _Eq()\n")),
     "module-removed": ("uses_lib", lambda s: s.replace("from vfstalelib_{id} import LibCls\n", "")),
     "submodule-removed": ("uses_sub", lambda s: s.replace("from vfstalepkg_{id}.sub import SubCls\n", "")),
     "intermediate-package-removed": ("uses_deep", lambda s: s.replace("from vfstalepkg_{id}.mid.deep import DeepCls\n", "")),
@@ -225,6 +244,8 @@ def make_rows(mod, id_):
         "uses_rebound": [CallTrace(mod.uses_rebound, {"a": mod.Rebound}, int), CallTrace(mod.uses_rebound, {"a": List[mod.Rebound]}, int),
                          CallTrace(mod.uses_rebound, {"a": Optional[mod.Rebound]}, mod.Rebound)],
         "uses_refunc": [CallTrace(mod.uses_refunc, {"a": List[mod.Refunc]}, int), CallTrace(mod.uses_refunc, {"a": int}, Optional[mod.Refunc])],
+        "uses_relist": [CallTrace(mod.uses_relist, {"a": mod.Relist}, int), CallTrace(mod.uses_relist, {"a": List[mod.Relist]}, Optional[mod.Relist])],
+        "uses_reinst": [CallTrace(mod.uses_reinst, {"a": Optional[mod.Reinst]}, int), CallTrace(mod.uses_reinst, {"a": int}, mod.Reinst)],
         "uses_lib": [CallTrace(mod.uses_lib, {"a": lib.LibCls}, int)],
         "uses_sub": [CallTrace(mod.uses_sub, {"a": Optional[sub.SubCls]}, int)],
         "uses_lib2": [CallTrace(mod.uses_lib2, {"a": lib2.LibCls2}, int), CallTrace(mod.uses_lib2, {"a": List[lib2.LibCls2]}, int)],
